@@ -270,6 +270,20 @@ Theorem C09_api_att_long_is_longlong :
 Proof. exact @api_att_long_is_longlong. Qed.
 Print Assumptions C09_api_att_long_is_longlong.
 
+(* the rounding function of model and specification returns every value of the target format unchanged *)
+Theorem C09_rne_exact :
+  forall (t : Gen_ncx.cty) (n : bool) (m e : Z),
+         Convert.is_float t = true ->
+         (0 <= m < 2 ^ Convert.fprec t)%Z ->
+         (Convert.femin t <= e <= Convert.femax t)%Z ->
+         exists m' e' : Z,
+           Convert.rne t n m e = Convert.VF n m' e' /\
+           (0 <= m' < 2 ^ Convert.fprec t)%Z /\
+           (Convert.femin t <= e' <= Convert.femax t)%Z /\
+           (m' * 2 ^ (e' + 1074))%Z = (m * 2 ^ (e + 1074))%Z.
+Proof. exact @rne_exact. Qed.
+Print Assumptions C09_rne_exact.
+
 (* the hypotheses are satisfiable on the real table *)
 Theorem C09_ex_put_short_int :
   let f := the (Convert.lookup Gen_ncx.Put false Gen_ncx.XSHORT Gen_ncx.Int) in
